@@ -246,7 +246,7 @@ def code_str(c):
 
 
 def summary(m):
-    t = "CON NON ACK RST".split()[m["type"]] if "type" in m else "TCP"
+    t = "CON NON ACK RST".split()[m["type"]] if m.get("type") is not None else "TCP"
     return "%s %s mid=%s tok=%s opts=%s pl=%d" % (
         t, code_str(m["code"]), m.get("mid"), m["token"].hex(),
         [(n, v.hex()) for n, v in m["options"]], len(m["payload"]))
